@@ -27,7 +27,14 @@ from wire import oracle_batch, Some
 
 HERE = os.path.dirname(os.path.abspath(__file__))
 WORKER = os.path.join(os.path.dirname(HERE), "c14_worker.py")
-LANGS = ["en-US", "en", "fr", "de", "es", "pt-BR", "zh-Hans", "und", "it"]
+LANGS = ["en-US", "en", "fr", "de", "es", "pt-BR", "zh-Hans", "und", "it", "pt", "zh"]
+# codes of which one CONTAINS the other (a substring / prefix test in a force= or lang= path picks the wrong one)
+FAMILIES = [["en-US", "en"], ["pt-BR", "pt"], ["zh-Hans", "zh"], ["de-AT", "de"], ["fr", "fr-CA"]]
+
+
+def contained_codes(langs):
+    """the codes of the set that contain, or are contained in, another code of the set"""
+    return [l for l in langs if any(l != m and (l in m or m in l) for m in langs)]
 
 
 def run_worker(jobs, default_lang, hashseed, repo):
@@ -92,6 +99,14 @@ def gen_capset(rng, styled=None, sub_ms=False, concurrent=True):
     """-> (cs, styles or None, shape, flags). cs: [[lang, [[s, e, text(, class)], ...]], ...]"""
     nl = rng.choice([1, 2, 2, 3, 4])
     langs = rng.sample(LANGS, nl)
+    if rng.random() < 0.3:
+        # prefix-related codes, in both orders (longer first / shorter first), possibly with an unrelated one
+        fams = rng.sample(FAMILIES, rng.choice([1, 1, 2]))
+        longs = [max(f, key=len) for f in fams]
+        shorts = [min(f, key=len) for f in fams]
+        langs = longs + shorts if rng.random() < 0.6 else shorts + longs
+        if rng.random() < 0.3:
+            langs.insert(rng.randint(0, len(langs)), rng.choice(["es", "it", "und"]))
     shape = rng.choice(["interleaved", "interleaved", "coinciding", "disjoint"])
     same_text = shape == "coinciding" and rng.random() < 0.5
     styled = rng.random() < 0.4 if styled is None else styled
@@ -323,6 +338,9 @@ def dfxp_job(rng, cs, styles, shape, flags, writer=None, force="?"):
     langs = [l for l, _ in cs]
     if force == "?":
         force = rng.choice([None, "", rng.choice(langs), rng.choice(langs), "xx"])
+        rel = contained_codes(langs)
+        if rel and rng.random() < 0.6:
+            force = rng.choice(rel)
     want = merged(cs) if writer != "main" else cs
     job = {"op": "dfxp_write", "writer": writer, "force": force, "cs": cs}
     if styles:
@@ -348,6 +366,15 @@ def stream_jobs(ctx, default):
     for _ in range(ctx.n(150, 3000)):
         cs, styles, shape, flags = gen_capset(rng)
         out.append(dfxp_job(rng, cs, styles, shape, flags))
+    # fixed grid: prefix-related codes in both orders x every force x the three writers (separate force= code paths)
+    for order in (["en-US", "pt-BR", "en", "pt"], ["en", "pt", "en-US", "pt-BR"], ["pt-BR", "en", "pt", "en-US"]):
+        gcs = [[l, [[(i + 1) * 1000000, (i + 1) * 1000000 + 500000, "%s only" % l.replace("-", "")]]] for i, l in enumerate(order)]
+        for writer in ("main", "single", "legacy"):
+            for force in order:
+                out.append(dfxp_job(rng, gcs, None, "disjoint", {"same_text": False, "styled": False, "equal_spans": False},
+                                    writer=writer, force=force))
+        for pick in order:
+            out.append(("E", {"op": "vtt_write", "cs": gcs, "lang": pick}, {"cs": ms_floor(start_text(gcs)), "pick": pick}))
     for _ in range(ctx.n(200, 4000)):
         styles, ps, tc, tf, doc = gen_sami_doc(rng, default)
         out.append(("C", {"op": "sami_read", "doc": doc}, {"styles": styles, "ps": ps, "tags_cut": tc, "tags_full": tf}))
@@ -366,6 +393,8 @@ def stream_jobs(ctx, default):
         cs, styles, shape, flags = gen_capset(rng)
         langs = [l for l, _ in cs]
         pick = rng.choice(["absent-arg", None, rng.choice(langs), langs[-1], "xx"])
+        if contained_codes(langs) and rng.random() < 0.5:
+            pick = rng.choice(contained_codes(langs))
         j = {"op": "vtt_write", "cs": cs}
         if styles:
             j["styles"] = styles
@@ -561,6 +590,9 @@ def judge(acc, cfg, items, obs, models):
             else:
                 acc.res["nontrivial"].add(("B", json.dumps(inp["job"])))
                 acc.count("B_force_present", int(info["force"] in [l for l, _ in info["cs"]]))
+                ls = [l for l, _ in info["cs"]]
+                acc.count("B_force_contained_in_an_EARLIER_language_code(%s)" % info["writer"],
+                          int(info["force"] in ls and any(info["force"] in m for m in ls[:ls.index(info["force"])])))
                 acc.count("B_shape_" + info["shape"])
                 acc.count("B_equal_span_runs", int(bool(info["flags"].get("equal_spans"))))
                 acc.count("B_styled_sets", int(bool(info["flags"].get("styled"))))
